@@ -638,7 +638,9 @@ void* hawk_xma_realloc (hawk_xma_t* xma, void* b, hawk_oow_t size)
 			n = hawk_xma_alloc(xma, size);
 			if (n)
 			{
-				HAWK_MEMCPY (n, b, size);
+				/* copy the old contents only. the old block is smaller than the requested size */
+				hawk_oow_t osize = mblk_size(USR_TO_SYS(b));
+				HAWK_MEMCPY (n, b, (size < osize? size: osize));
 				hawk_xma_free (xma, b);
 			}
 		}
